@@ -324,7 +324,10 @@ OP(bn_grow_lsh_inplace) {
 /* a bit above the current length of a short integer: the digits in between have never been written */
 OP(bn_set_bit_above) {
 	bn_t t; bn_null(t); bn_new(t);
-	bn_set_dig(t, 5);
+	/* the state after a short value was copied over a longer one: the digits above the length hold what the longer
+	 * value left there (here: a pattern of the plan's choosing, so that the two-pattern differential sees a use of it) */
+	memset(t->dp, (int)(sim_alloc.fill & 0xFF) | 1, (size_t)t->alloc * sizeof(dig_t));
+	t->dp[0] = 5; t->used = 1; t->sign = RLC_POS;
 	W(bn_set_bit(t, (uint_t)(64 + B[6]->dp[0] % (RLC_BN_BITS - 64)), 1));
 	out_bn(t);
 	bn_set_bit(t, (uint_t)(B[5]->dp[0] % RLC_BN_BITS), 0); out_bn(t);
